@@ -5,7 +5,7 @@ Nothing here runs candid code: the lexer model is an NFA simulation of the regex
 (longest match, logos priorities for ties), parametrised by the tables extracted from the facts."""
 import re
 
-from facts import AnchorMissing, callee, lit_value, nodes, peel, unblock, walk
+from facts import AnchorMissing, callee, lit_value, nodes, pat_alternatives, pat_head, peel, short, unblock, walk
 
 
 # ============================================================================ attribute strings
@@ -777,6 +777,17 @@ class Newtype:
         self.v = v
 
 
+class StrBuf:
+    """a mutable String (built with push / push_str / extend / +=)"""
+
+    def __init__(self, s=""):
+        self.s = s
+
+
+def _plain(v):
+    return v.s if isinstance(v, StrBuf) else v
+
+
 class Formatter:
     """core::fmt::Formatter: collects what is written"""
 
@@ -851,6 +862,7 @@ class Interp:
 
     def __init__(self, crate=None, max_depth=8):
         self.crate = crate
+        self.scopes = None       # optional c11.Scopes of the function whose sub-expressions are evaluated
         self.depth = 0
         self.max_depth = max_depth
 
@@ -861,7 +873,7 @@ class Interp:
             self.depth -= 1
             raise NotEvaluable("call depth")
         try:
-            return self._call_fn(fn_hir, args, env)
+            return _plain(self._call_fn(fn_hir, args, env))
         finally:
             self.depth -= 1
 
@@ -952,6 +964,9 @@ class Interp:
             if r.get("kind") == "Local":
                 if r.get("path") in env:
                     return env[r["path"]]
+                b = self.scopes.use.get(id(e)) if self.scopes is not None else None
+                if b and b.get("init") is not None:      # a `let` of the enclosing function, outside the evaluated expression
+                    return self.ev(b["init"], env)
             raise NotEvaluable(f"path {r.get('path')}")
         if k == "ref":
             return self.ev(e["e"], env)
@@ -981,7 +996,7 @@ class Interp:
                 return bool(self.ev(e["a"], env)) and bool(self.ev(e["b"], env))
             if op == "Or":
                 return bool(self.ev(e["a"], env)) or bool(self.ev(e["b"], env))
-            a, b = self.ev(e["a"], env), self.ev(e["b"], env)
+            a, b = _plain(self.ev(e["a"], env)), _plain(self.ev(e["b"], env))
             if isinstance(a, str) and isinstance(b, str) and op in ("Eq", "Ne"):
                 return (a == b) if op == "Eq" else (a != b)
             if isinstance(a, str) and isinstance(b, str) and op == "Add" and not isinstance(a, RChar):
@@ -995,7 +1010,7 @@ class Interp:
         if k == "block":
             fc = _fmt_block(e)
             if fc is not None:
-                return ("fmtargs", "".join(x if isinstance(x, str) else render_placeholder(x, self.ev(x.expr, env))
+                return ("fmtargs", "".join(x if isinstance(x, str) else render_placeholder(x, _plain(self.ev(x.expr, env)))
                                            for x in fc.parts))
             env2 = dict(env)
             for s in e.get("stmts") or []:
@@ -1054,8 +1069,13 @@ class Interp:
             if c.endswith("core::char::from_u32") or c.endswith("char::methods::<impl char>::from_u32"):
                 v = args[0]
                 return ("Some", RChar(chr(v))) if 0 <= v <= 0x10FFFF and not 0xD800 <= v <= 0xDFFF else None
-            if re.search(r"Vec(::<[^>]*>)?::new$", c) or re.search(r"String(::<[^>]*>)?::new$", c) and not args:
-                return [] if "Vec" in c else ""
+            if re.search(r"Vec(::<[^>]*>)?::(new|with_capacity)$", c):
+                return []
+            if re.search(r"string::String::(new|with_capacity)$", c):
+                return StrBuf()
+            if re.search(r"string::String::from$|<alloc::string::String as core::convert::From<&str>>::from$", c) and len(args) == 1 \
+                    and isinstance(args[0], str):
+                return StrBuf(args[0])
             if c.endswith("from_utf8_lossy") or c.endswith("str::from_utf8_unchecked"):
                 return bytes(args[0]).decode("utf-8", "replace")
             if c.endswith("Try::branch"):
@@ -1081,6 +1101,8 @@ class Interp:
             b = self.ev(e["e"], env)
             if isinstance(b, Newtype) and e["n"] == "0":
                 return b.v
+            if isinstance(b, tuple) and len(b) == 2 and b[0] == "struct" and e["n"] in b[1]:
+                return b[1][e["n"]]
             if isinstance(b, tuple) and e["n"].isdigit() and not (b and isinstance(b[0], str) and b[0] in ("Some", "Ok", "range", "closure", "fmtargs")):
                 return b[int(e["n"])]
             raise NotEvaluable(f"field {e['n']}")
@@ -1097,13 +1119,29 @@ class Interp:
             raise NotEvaluable("index")
         if k == "semi":
             return self.ev(e["e"], env)
+        if k in ("assign", "assignop"):
+            tgt = unblock(e["a"])
+            if not (tgt.get("k") == "path" and (tgt.get("res") or {}).get("kind") == "Local" and tgt["res"]["path"] in env):
+                raise NotEvaluable("assignment to a non-local")
+            nm = tgt["res"]["path"]
+            val = _plain(self.ev(e["b"], env))
+            if k == "assign":
+                raise NotEvaluable("re-assignment of a local")     # environments are copied per block: keep to mutation in place
+            op = str(e.get("op") or "")
+            cur = env[nm]
+            if isinstance(cur, StrBuf) and op.startswith("Add") and isinstance(val, str):
+                cur.s += val
+                return None
+            raise NotEvaluable(f"compound assignment {op}")
         raise NotEvaluable(f"expression kind {k}")
 
     def for_loop(self, e, env):
         sc = e["scrut"]
         if not (sc.get("k") == "call" and (callee(sc) or "").endswith("into_iter")):
             raise NotEvaluable("for-loop shape")
-        items = self.ev(sc["args"][0], env)
+        items = _plain(self.ev(sc["args"][0], env))
+        if isinstance(items, str) and not isinstance(items, RChar):
+            items = [RChar(ch) for ch in items]          # an iterator of chars (e.g. char::escape_debug)
         if not isinstance(items, list):
             raise NotEvaluable("for-loop over a non-list")
         inner = None
@@ -1142,9 +1180,32 @@ class Interp:
     def method(self, e, env):
         m = e["m"]
         recv = self.ev(e["recv"], env)
-        args = [self.ev(a, env) for a in e["args"]]
+        args = [_plain(self.ev(a, env)) for a in e["args"]]
+        if isinstance(recv, StrBuf):
+            if m == "push" and isinstance(args[0], str):
+                recv.s += args[0]
+                return None
+            if m == "push_str" and isinstance(args[0], str):
+                recv.s += args[0]
+                return None
+            if m == "extend" and isinstance(args[0], (str, list)):
+                recv.s += args[0] if isinstance(args[0], str) else "".join(args[0])
+                return None
+            if m in ("write_str", "write_char") and isinstance(args[0], str):
+                recv.s += args[0]
+                return ("Ok", None)
+            if m == "write_fmt" and isinstance(args[0], tuple) and args[0][0] == "fmtargs":
+                recv.s += args[0][1]
+                return ("Ok", None)
+            if m == "clear":
+                recv.s = ""
+                return None
+            recv = recv.s
+        if isinstance(recv, tuple) and len(recv) == 3 and recv[0] == "enum" and m == "get_id" \
+                and recv[1].endswith(("internal::Label::Id", "internal::Label::Unnamed")):
+            return recv[2][0]          # Label::get_id of a numeric label is the number itself
         if isinstance(recv, Formatter):
-            if m == "write_str":
+            if m in ("write_str", "write_char"):
                 recv.out.append(args[0])
                 return ("Ok", None)
             if m == "write_fmt" and isinstance(args[0], tuple) and args[0][0] == "fmtargs":
@@ -1519,3 +1580,136 @@ def check_quoting_chain(c):
     if not ok:
         problems.append('ident_string is no longer `if needs_quote(id) { "\\"{escaped}\\"" } else { id }`')
     return problems, [isk["key"], nq["key"], ids["key"]]
+
+
+# ============================================================================ lexical scopes of a function body
+def pat_bindings(p, ctor, out):
+    """bindings of a pattern: name -> constructor path that directly encloses the binding (or the given default)"""
+    if not isinstance(p, dict):
+        return out
+    k = p.get("k")
+    if k == "bind":
+        out[p["n"]] = ctor
+        if p.get("sub"):
+            pat_bindings(p["sub"], ctor, out)
+    elif k in ("ts", "struct"):
+        cp = (p.get("res") or {}).get("path")
+        for s_ in (p.get("subs") or []):
+            pat_bindings(s_, cp, out)
+        for f in (p.get("fields") or []):
+            pat_bindings(f[1], cp, out)
+    else:
+        for key in ("subs", "pre", "post"):
+            for s_ in p.get(key) or []:
+                pat_bindings(s_, ctor, out)
+        for key in ("sub", "mid"):
+            if p.get(key):
+                pat_bindings(p[key], ctor, out)
+    return out
+
+
+class Scopes:
+    """lexical scoping of one function body: for every use of a local the binding in scope
+    ({origin: constructor path | 'param' | 'closure' | 'let' | 'match', init: expr | None}), and for every node the
+    heads of the innermost enclosing match arm (the `arm context`)."""
+
+    def __init__(self, fn_hir):
+        self.use = {}
+        self.ctx = {}
+        env = {}
+        for p in fn_hir["params"]:
+            for n, ctor in pat_bindings(p, "param", {}).items():
+                env[n] = {"origin": ctor, "init": None}
+        self.visit(fn_hir["body"], env, "")
+
+    def visit(self, n, env, ctx):
+        if isinstance(n, list):
+            for x in n:
+                self.visit(x, env, ctx)
+            return
+        if not isinstance(n, dict):
+            return
+        self.ctx[id(n)] = ctx
+        k = n.get("k")
+        if k == "path":
+            r = n.get("res") or {}
+            if r.get("kind") == "Local":
+                self.use[id(n)] = env.get(r.get("path"))
+            return
+        if k == "block":
+            env2 = dict(env)
+            for st in n.get("stmts") or []:
+                self.ctx[id(st)] = ctx
+                if st.get("k") == "slet":
+                    if st.get("init") is not None:
+                        self.visit(st["init"], env2, ctx)
+                    if st.get("els"):
+                        self.visit(st["els"], env2, ctx)
+                    single = st["pat"].get("k") == "bind" and not st["pat"].get("sub")
+                    for nm, ctor in pat_bindings(st["pat"], "let", {}).items():
+                        env2[nm] = {"origin": ctor, "init": st.get("init") if single else None}
+                else:
+                    self.visit(st, env2, ctx)
+            if n.get("e") is not None:
+                self.visit(n["e"], env2, ctx)
+            return
+        if k == "match":
+            self.visit(n["scrut"], env, ctx)
+            for a in n["arms"]:
+                env2 = dict(env)
+                for nm, ctor in pat_bindings(a["pat"], "match", {}).items():
+                    env2[nm] = {"origin": ctor, "init": None}
+                heads = [pat_head(x) for x in pat_alternatives(a["pat"])]
+                names = [short(hd) for hd in heads if isinstance(hd, str) and "::" in hd]
+                ctx2 = "|".join(names) if names and n.get("src") == "Normal" else ctx
+                if a.get("guard") is not None:
+                    self.visit(a["guard"], env2, ctx2)
+                self.visit(a["body"], env2, ctx2)
+            return
+        if k == "if":
+            env2 = dict(env)
+            for ln in nodes(n["c"], "let"):
+                for nm, ctor in pat_bindings(ln["pat"], "let", {}).items():
+                    env2[nm] = {"origin": ctor, "init": None}
+            self.visit(n["c"], env2, ctx)
+            self.visit(n["t"], env2, ctx)
+            if n.get("e") is not None:
+                self.visit(n["e"], env, ctx)
+            return
+        if k == "closure":
+            env2 = dict(env)
+            for p in n.get("params") or []:
+                for nm, ctor in pat_bindings(p, "closure", {}).items():
+                    env2[nm] = {"origin": ctor, "init": None}
+            self.visit(n["body"], env2, ctx)
+            return
+        for key, v in n.items():
+            if isinstance(v, (dict, list)) and key not in ("res", "callee", "v", "mac", "ga", "pat"):
+                self.visit(v, env, ctx)
+
+
+# ============================================================================ unordered iteration (MIR call sites)
+_HASH_ITER_METHOD = re.compile(r"hash::(map::HashMap|set::HashSet)(::)?<.*>::(iter|keys|values|into_iter|drain|iter_mut|values_mut|"
+                               r"into_keys|into_values|retain|extract_if)$")
+_HASH_ITER_TYPE = re.compile(r"hash(_|::)(map|set)::(Iter|IterMut|Keys|Values|ValuesMut|IntoIter|IntoKeys|IntoValues|Drain)\b")
+
+
+def hash_iteration_sites(body):
+    """[(callee, line)] of the call sites of a MIR body that iterate a HashMap / HashSet"""
+    out = []
+    for bb, t, cal in body.call_sites():
+        f = t.get("f")
+        k = (f.get("k") or {}) if isinstance(f, dict) else {}
+        declared, resolved = k.get("fn") or "", k.get("res") or ""
+        ga = [g or "" for g in (k.get("ga") or [])]
+        hit = None
+        for name in (declared, resolved):
+            if _HASH_ITER_METHOD.search(name) or _HASH_ITER_TYPE.search(name):
+                hit = name
+        if hit is None and any(_HASH_ITER_TYPE.search(g) for g in ga):
+            hit = f"{declared} over {[g for g in ga if _HASH_ITER_TYPE.search(g)][0]}"
+        if hit is None and "IntoIterator" in declared and any(re.search(r"Hash(Map|Set)<", g) for g in ga):
+            hit = f"{declared} over {ga[0]}"
+        if hit:
+            out.append((hit, t.get("ln")))
+    return out
